@@ -13,9 +13,9 @@ from simkit.harness import HarnessError, World
 from simkit.seam import REAL
 
 TIERS = {
-    "C01": {"quick": 2400, "thorough": 50000},
-    "C02": {"quick": 2000, "thorough": 40000},
-    "C06": {"quick": 2400, "thorough": 40000},
+    "C01": {"quick": 2400, "thorough": 20000},
+    "C02": {"quick": 2000, "thorough": 16000},
+    "C06": {"quick": 2400, "thorough": 20000},
 }
 LEVEL = {"C01": "exploration", "C02": "exploration", "C06": "exploration"}
 RULE = {
